@@ -352,6 +352,14 @@ def close(a, b, rel, scale):
     return abs(a - b) <= rel * max(abs(a), abs(b), scale)
 
 
+def sigma_close(a, b, rel, sscale):
+    """posterior sigmas a, b of a player whose tau-inflated prior sigma is sscale.  sigma' = sscale * sqrt(f) with the variance
+    factor f = max(1 - share*delta, kappa) computed from O(1) operands, so what doubles can deliver is an ABSOLUTE accuracy of
+    f of the order of the budget; near the floor (f ~ kappa) that is a large relative error of sigma'.  Accepted: the usual
+    relative criterion, or |f_a - f_b| <= 2 rel."""
+    return close(a, b, rel, sscale) or (math.isfinite(a) and math.isfinite(b) and abs(a * a - b * b) <= 2 * rel * sscale * sscale)
+
+
 def compare_rate(g, impl, model, rel=None):
     """compare impl ('OK', teams) with model ('OK', teams); returns None or a description"""
     rel = rel_budget(g) if rel is None else rel
@@ -372,7 +380,7 @@ def compare_rate(g, impl, model, rel=None):
             sscale = math.sqrt(prior[1] ** 2 + tau * tau)
             if not close(x[1], y[1], rel, g["beta"]):
                 return "slot [%d][%d] mu: impl %r model %r (rel budget %.3g)" % (ti, pi, x[1], y[1], rel)
-            if not close(x[2], y[2], rel, sscale):
+            if not sigma_close(x[2], y[2], rel, sscale):
                 return "slot [%d][%d] sigma: impl %r model %r (rel budget %.3g)" % (ti, pi, x[2], y[2], rel)
     return None
 
@@ -462,9 +470,43 @@ def teams_close(g, A, B, rel):
         for j, (x, y) in enumerate(zip(ta, tb)):
             if not close(x[0], y[0], rel, g["beta"]):
                 return "slot [%d][%d] mu %r vs %r (rel %.3g)" % (i, j, x[0], y[0], rel)
-            if not close(x[1], y[1], rel, sc[i][j]):
+            if not sigma_close(x[1], y[1], rel, sc[i][j]):
                 return "slot [%d][%d] sigma %r vs %r (rel %.3g)" % (i, j, x[1], y[1], rel)
     return None
+
+
+def explained_by_rounding(g, impl, model, drv):
+    """Last resort before a double-against-double mismatch is reported: how far is the MODEL's own double evaluation from the
+    same model terms on 192-bit floats (HRATEX)?  That distance is the rounding noise of this very input (it explodes where
+    the variance factor 1 - share*delta is a difference of nearly equal numbers, or in Thurstone-Mosteller ties).  The
+    implementation — another double evaluation of the same formula — is granted 30 times the noise of its team plus the usual
+    budget; anything beyond that is not rounding."""
+    try:
+        import exact as _ex
+        line = rate_line(dict(g, leaves="c")).replace("RATE", "HRATEX", 1)
+        ex = _ex.parse_ratex(drv.run([line])[0])
+        if ex is None:
+            return False
+        rel = rel_budget(g)
+        tau = g["tau"] if g["tauopt"] is None else g["tauopt"]
+        flat_prior = [p for t in g["teams"] for p in t]
+        for a, b, c in zip(impl[1], model[1], ex):
+            if len(a) != len(b) or len(a) != len(c):
+                return False
+            nm = max(abs(y[1] - float(z[1])) for y, z in zip(b, c))
+            ns = max(abs(y[2] - float(z[2])) for y, z in zip(b, c))
+            for x, y, z in zip(a, b, c):
+                if x[0] != y[0] or y[0] != z[0]:
+                    return False
+                prior = flat_prior[y[0]]
+                sscale = math.sqrt(prior[1] ** 2 + tau * tau)
+                if abs(x[1] - float(z[1])) > 30 * nm + rel * max(abs(y[1]), g["beta"]):
+                    return False
+                if abs(x[2] - float(z[2])) > 30 * ns + rel * max(abs(y[2]), sscale):
+                    return False
+        return True
+    except Exception:  # noqa: BLE001
+        return False
 
 
 def corr_games(res, games, kind_on_mismatch, label, drv=None, exact_sample=(24, 60)):
@@ -478,6 +520,10 @@ def corr_games(res, games, kind_on_mismatch, label, drv=None, exact_sample=(24, 
         model = parse_rate_out(o)
         res.traces += 1
         mm = compare_rate(g, impl, model)
+        if mm and impl[0] == "OK" and model[0] == "OK" and explained_by_rounding(g, impl, model, drv):
+            # ill-conditioned input: the model's OWN evaluation on doubles is as far from its evaluation on 192-bit floats
+            res.count("mismatches_explained_by_rounding_of_the_model_itself")
+            mm = None
         if mm:
             res.fail(kind_on_mismatch, "%s: implementation and model disagree: %s" % (label, mm),
                      dict(type="game", game=g))
